@@ -26,6 +26,10 @@ V03(e) ==
 V10(e) ==
   LET c == e.c o == e.o v == PasteSoundOK(c, o) w == PasteRegionsOK(c, o) IN
   IF "xcrs" \in DOMAIN c THEN VXCrs(e)
+  ELSE IF "den" \in DOMAIN c THEN        \* rasters of thousands of pixels (own denominator): only the paste decision is judged here, nothing is warped
+       (IF e.outcome # "ok" THEN "reject:raised_" \o e.outcome
+        ELSE IF o.paste_ok /\ (c.A[2] # 0 \/ c.A[4] # 0) THEN "reject:paste_reported_for_a_rotated_or_sheared_map"
+        ELSE IF o.paste_ok THEN "ok" ELSE "skip")
   ELSE IF e.outcome # "ok" THEN "reject:raised_" \o e.outcome
   ELSE IF v # "ok" THEN "reject:" \o v
   ELSE IF w # "ok" THEN "reject:" \o w
